@@ -40,9 +40,6 @@ Definition ost0 (g : c01geom) : ost :=
 (* bytes a message of len bytes occupies in the stream *)
 Definition c_req (g : c01geom) (len : Z) : Z := required_spec len (cg_mtu g - 32).
 
-Definition refusal (e : err) : bool :=
-  match e with BackPressured | NotConnected | MaxPositionExceeded | TooLong | Closed => true | _ => false end.
-
 Definition next_term (g : c01geom) (pos : Z) : Z :=
   let r := pos mod cg_tlen g in if r =? 0 then pos else pos + (cg_tlen g - r).
 
